@@ -1690,6 +1690,9 @@ impl<'o> R<'o> {
                 let mut cont = cont;
                 if next_line {
                     self.st.nextline_scalars += 1;
+                    if self.o.avoid.comment_after_root_anchor && wrote_anchor && matches!(after, After::Doc { .. }) {
+                        self.no_comment_once = true;
+                    }
                     self.eol(u);
                     let w = u.range(0, 3);
                     // a root scalar may start at column 0; nested ones are indented past the indicator
